@@ -30,7 +30,7 @@ BOUNDS = {
               "addresses": "symbolic, whole 32-bit space (address+length <= 2**32)",
               "data bytes, start address": "symbolic"},
     "thorough": {"regions": "1..3", "region lengths": "1 region: 1..70 (all) and 91,120,121; 2 regions: 12 length pairs up to 70; "
-                                                      "3 regions: 7 length triples up to (70,61,33); every insertion order",
+                                                      "3 regions: 7 length triples up to (31,61,2) and (70,31,2); every insertion order",
                  "addresses": "symbolic, whole 32-bit space (address+length <= 2**32)",
                  "data bytes, start address": "symbolic"},
 }
@@ -42,7 +42,7 @@ ASSUMPTIONS = ["Intel HEX format as in Intel's Hexadecimal Object File Format Sp
                "a file object is modelled by a line sink/source keeping the written text (print -> write)",
                "a HexFile without a start address is one with start_address == 0 (HexFile.__init__)"]
 SHIMS_USED = ["isinstance", "bytes", "int", "struct", "hex", "format", "range"]
-JOB_TIMEOUT = {"quick": 900, "thorough": 3000}   # generous: the machine is shared
+JOB_TIMEOUT = {"quick": 900, "thorough": 6000}   # generous: the machine is shared
 M32 = 1 << 32
 
 
@@ -160,7 +160,6 @@ class RoundTrip(Harness):
             res["save-succeeds"] = False
             return res
         dec = ihex.decode(v["lines"], hexlemma.canon)
-        res["reader-digit-lemma"] = dec["lemmas"]
         res["records-wellformed"] = dec["records_ok"]
         res["file-structure"] = dec["structure_ok"]
         image, ov1 = ihex.normalize(dec["segments"])
@@ -187,7 +186,7 @@ def _shapes(tier):
     else:
         one = list(range(1, 71)) + [91, 120, 121]
         two = [(1, 1), (1, 2), (30, 30), (31, 30), (29, 31), (2, 61), (60, 1), (61, 61), (70, 1), (70, 31), (33, 70), (70, 70)]
-        three = [(1, 1, 1), (1, 2, 3), (2, 1, 31), (30, 30, 30), (31, 1, 30), (31, 61, 2), (70, 61, 33)]
+        three = [(1, 1, 1), (1, 2, 3), (2, 1, 31), (30, 30, 30), (31, 1, 30), (31, 61, 2), (70, 31, 2)]
     return [(n,) for n in one] + two + three
 
 
